@@ -441,12 +441,12 @@ func installBuiltinsExt(in *Interp, p *Pkg) {
 			return "sorted-map"
 		case KFun:
 			if v.Fun.Kind == FClosure || v.Fun.Kind == FBuiltin {
-				return "fun"
+				return "function"
 			}
 		}
 		return ""
 	}
-	documentedTypes := map[string]bool{"int": true, "float": true, "string": true, "list": true, "sorted-map": true, "array": true, "bytes": true, "fun": true}
+	documentedTypes := map[string]bool{"int": true, "float": true, "string": true, "list": true, "sorted-map": true, "array": true, "bytes": true, "function": true}
 	def("type", []string{"value"}, func(in *Interp, a []*Val, at *Val) (*Val, *Err) {
 		n := typeName(a[0])
 		if n == "" {
